@@ -65,7 +65,7 @@ class Violation(dict):
 
 
 class CaseResult:
-    __slots__ = ("evaluations", "fingerprints", "violations", "counters", "sample", "bulk_distinct")
+    __slots__ = ("evaluations", "fingerprints", "violations", "counters", "sample", "bulk_distinct", "stop")
 
     def __init__(self):
         self.evaluations = 0
@@ -76,6 +76,7 @@ class CaseResult:
         # distinct non-trivial sub-cases counted by the check itself; only for sub-cases that are
         # distinct from every other case by construction (disjoint enumeration ranges)
         self.bulk_distinct = 0
+        self.stop = False  # set by a check that saw a blocked thread: the remaining sub-cases would only wait for the watchdog
 
     def count(self, name, n=1):
         self.counters[name] = self.counters.get(name, 0) + n
